@@ -96,7 +96,34 @@ macro_rules! transfer_edge {
     }};
 }
 
+macro_rules! luma_edge {
+    ($l:expr, $key:literal, $S:ty, $W:ty, $dec:path, $enc:path) => {{
+        obl!($l; concat!("c02_luma_", $key), "C02", Tier::Quick,
+            concat!("Luma<", stringify!($S), "> <-> XYZ / RGB: luma -> XYZ gives Y = the standard's decoding curve of the luma and the white point's chromaticity (1e-9), XYZ -> luma gives the encoded Y, and luma -> RGB of the same standard is the grey (v, v, v)"),
+            [concat!("<Xyz as FromColorUnclamped<Luma<", stringify!($S), ">>>"), concat!("<Luma<", stringify!($S), "> as FromColorUnclamped<Xyz>>"), concat!("<Rgb<", stringify!($S), "> as FromColorUnclamped<Luma<", stringify!($S), ">>>"), "LumaStandard::TransferFn"],
+            [var("v", 0.0, 1.0)];
+            |v| {
+                let mut r = Res::<B>::new();
+                let w = wp_of::<$W>();
+                let xyz: Xyz<$W, T> = Xyz::from_color_unclamped(palette::luma::Luma::<$S, T>::new(v[0]));
+                let y = $dec(v[0]);
+                r.goal("luma_to_xyz", xyz.y.close(y, 1e-9) & xyz.x.close(y * T::k(w[0]), 1e-9) & xyz.z.close(y * T::k(w[2]), 1e-9));
+                let back: palette::luma::Luma<$S, T> = palette::luma::Luma::from_color_unclamped(Xyz::<$W, T>::new(v[0] * T::k(w[0]), v[0], v[0] * T::k(w[2])));
+                r.goal("xyz_to_luma", back.luma.close($enc(v[0]), 1e-9));
+                let rgb: Rgb<$S, T> = Rgb::from_color_unclamped(palette::luma::Luma::<$S, T>::new(v[0]));
+                r.goal("luma_to_rgb_is_grey", rgb.red.close(v[0], 1e-9) & rgb.green.close(v[0], 1e-9) & rgb.blue.close(v[0], 1e-9));
+                r
+            });
+    }};
+}
+
 pub fn register(l: &mut Vec<Obl>) {
+    luma_edge!(l, "srgb", encoding::Srgb, wp::D65, tf::srgb_decode, tf::srgb_encode);
+    luma_edge!(l, "rec709", encoding::Rec709, wp::D65, tf::rec_decode, tf::rec_encode);
+    luma_edge!(l, "rec2020", encoding::Rec2020, wp::D65, tf::rec_decode, tf::rec_encode);
+    luma_edge!(l, "adobe", encoding::AdobeRgb, wp::D65, tf::adobe_decode, tf::adobe_encode);
+    luma_edge!(l, "displayp3", encoding::DisplayP3, wp::D65, tf::srgb_decode, tf::srgb_encode);
+    luma_edge!(l, "prophoto", encoding::ProPhotoRgb, wp::D50, tf::prophoto_decode, tf::prophoto_encode);
     cie_edges!(l, "d65", wp::D65, 0.95047, 1.08883);
     cie_edges!(l, "d50", wp::D50, 0.96422, 0.82521);
     obl!(l; "c02_xyz_to_yxy", "C02", Tier::Quick,
